@@ -6,6 +6,7 @@ import Comdex.Lemmas.AmmRanged
 import Comdex.Lemmas.AmmKeeper
 import Comdex.Lemmas.AmmPlace
 import Comdex.Lemmas.AmmOrders
+import Comdex.Model.AmmMultiView
 /-!
 # C05 — Batch matching conserves coins and never fills an order beyond its limits
 
@@ -848,6 +849,85 @@ example : exRanged.buyAmountOver 995000000000000000 = some 4779 ∧ exRanged.sel
   set_option maxRecDepth 100000 in
   refine ⟨by decide, by decide⟩
 
+
+/-! ## the keeper's first batch of a pair WITH pools — modelled (`Model/AmmMultiView.lean`)
+
+`FindMatchPrice` walks `MultipleOrderViews{book view, pool curves…}`; each pool then places one buy and one sell order at the found
+price — `BuyAmountOver(p)` / `SellAmountUnder(p)`, the amounts of `pool_buy_amount_on_curve` / `ranged_buy_amount_on_curve` … — and
+the book is matched at that single price. -/
+
+theorem poolOrdersAt_wf (pools : List (Nat × PoolV)) (p : Int) (hp : 0 < p) (firstId : Nat) :
+    ∀ o ∈ poolOrdersAt pools p firstId, Wf o ∧ o.price = p ∧ o.kind = 1 := by
+  induction pools generalizing firstId with
+  | nil => intro o ho; simp [poolOrdersAt] at ho
+  | cons x rest ih =>
+    obtain ⟨pid, pl⟩ := x
+    intro o ho
+    unfold poolOrdersAt at ho
+    simp only at ho
+    rcases List.mem_append.mp ho with h1 | h1
+    · rcases List.mem_append.mp h1 with h2 | h2
+      · split at h2
+        · rename_i hb
+          simp only [List.mem_singleton] at h2
+          subst h2
+          refine ⟨⟨hp, Int.le_refl _, by simp only; omega, Int.le_refl _, ?_⟩, rfl, rfl⟩
+          simp only [reduceCtorEq, if_false, offerCoinAmount]
+          have := quoteCeil_nonneg p ((pl.buyAmountOver p).getD 0) (by omega) (by omega)
+          omega
+        · simp at h2
+      · split at h2
+        · rename_i hs
+          simp only [List.mem_singleton] at h2
+          subst h2
+          refine ⟨⟨hp, Int.le_refl _, by simp only; omega, Int.le_refl _, ?_⟩, rfl, rfl⟩
+          simp [offerCoinAmount]
+        · simp at h2
+    · exact ih _ o h1
+
+/-- **limits respected in a first batch with pools**: at any positive match price (in particular the one `FindMatchPrice` returns
+for the multiple view) the book of the user orders plus the pools' orders at that price is matched without a panic, and every
+order of the result — user or pool — is an input order after allowed fills (`Delta`: within offer and amount, at a price within
+its limit, a matched order receives something) -/
+theorem limit_respected_first_batch_pools (os : List Order) (hw : ∀ o ∈ os, Wf o) (pools : List (Nat × PoolV))
+    (prec firstId : Nat) (p : Int) (hp : 0 < p)
+    (hf : (matchFirstBatchPools os pools prec firstId).1 = some p) :
+    (matchFirstBatchPools os pools prec firstId).2.1 = poolOrdersAt pools p firstId ∧
+    ((matchFirstBatchPools os pools prec firstId).2.2 = .noMatch ∨
+     ∃ b' q, (matchFirstBatchPools os pools prec firstId).2.2 = .ok b' q ∧
+       ∀ o' ∈ b'.orders, ∃ o ∈ os ++ poolOrdersAt pools p firstId, Delta o o') := by
+  unfold matchFirstBatchPools at hf ⊢
+  simp only at hf ⊢
+  cases hm : findMatchPriceM ⟨makeView (newBook os), pools.map (·.2)⟩ prec with
+  | none => rw [hm] at hf; cases hf
+  | some p' =>
+    rw [hm] at hf
+    simp only at hf ⊢
+    cases hf
+    refine ⟨rfl, ?_⟩
+    have hfold : (poolOrdersAt pools p firstId).foldl addOrder (newBook os) = newBook (os ++ poolOrdersAt pools p firstId) := by
+      unfold newBook; rw [List.foldl_append]
+    rw [hfold]
+    apply single_delta _ _ p hp
+    intro o ho
+    rcases List.mem_append.mp ho with h | h
+    · exact hw o h
+    · exact (poolOrdersAt_wf pools p hp firstId o h).1
+
+/-- non-vacuity: a buy of 1000 @ 1.05, a sell of 500 @ 0.95 and the basic pool 10⁶ : 10⁶ (price 1.0) at precision 2: the multiple
+view finds the price 1.01, the pool places a sell order of 9900 there, the buyer gets 500 from the seller and 500 from the pool -/
+example :
+    let b : Order := { id := 0, kind := 0, oid := 1, dir := .buy, price := 1050000000000000000, amount := 1000, offer := 1050,
+                       opn := 1000, paid := 0, received := 0, batchId := 1 }
+    let s : Order := { id := 1, kind := 0, oid := 2, dir := .sell, price := 950000000000000000, amount := 500, offer := 500,
+                       opn := 500, paid := 0, received := 0, batchId := 1 }
+    let r := matchFirstBatchPools [b, s] [(1, PoolV.basic ⟨1000000, 1000000⟩)] 2 2
+    r.1 = some 1010000000000000000 ∧ (r.2.1.map fun (o : Order) => (o.id, o.amount)) = [(2, 9900)] ∧
+    (match r.2.2 with
+     | .ok b' q => some (q, b'.orders.map fun (o : Order) => (o.id, o.opn, o.paid, o.received))
+     | _ => none) = some (0, [(0, 0, 1010, 1000), (1, 0, 500, 505), (2, 9400, 500, 505)]) := by
+  set_option maxRecDepth 100000 in
+  refine ⟨by decide, by decide, by decide⟩
 
 /-! ## the exact characterisation of defect D2 -/
 
